@@ -81,7 +81,8 @@ def make_data(kind, rng, variant=0):
         y[:3] = numpy.array([0, 1, 2]) + 10 * (variant % 3)
         return X, y, None
     if kind == "clus":
-        X = numpy.vstack([r.randn(n // 2, d) + 3, r.randn(n - n // 2, d) - 3])
+        k = n // 2 if variant % 3 != 1 else n // 3          # variant 1: two groups of different sizes
+        X = numpy.vstack([r.randn(k, d) + 3, r.randn(n - k, d) - 3])
         return X, None, None
     if kind == "clus2":
         X = numpy.vstack([r.randn(n // 2, 2) + 3, r.randn(n - n // 2, 2) - 3])
